@@ -370,6 +370,8 @@ class Interp:
         self.stats = {'worlds': 0, 'calls_inlined': 0, 'calls_opaque': 0, 'calls_model': 0, 'calls_event': 0,
                       'fns_entered': set(), 'opaque_callees': set()}
         self.memo = {}
+        self._promoted = {}
+        self._fn = None
         self.ctx_site = None     # (site, span) of the outermost call into a rule-declared transparent wrapper
         from . import models
         self.models = models.MODELS
@@ -463,7 +465,7 @@ class Interp:
             v = target[1]
         else:
             v = w.store.get((target[0], target[1]), TOP)
-        for p in target[2]:
+        for p in (target[2] if len(target) > 2 else ()):
             v = self._proj_read(w, v, p)
         return v
 
@@ -577,7 +579,48 @@ class Interp:
         return TOP
 
     # ---- operands / rvalues ----
+    def eval_promoted(self, fn, n):
+        """Value of promoted constant #n of `fn` (a tiny straight-line body), as a reference to a constant."""
+        key = (fn.path, n)
+        if key in self._promoted:
+            return self._promoted[key]
+        self._promoted[key] = TOP
+        if n >= len(fn.promoted):
+            return TOP
+
+        class P:
+            pass
+        pf = P()
+        pf.path = fn.path + '::promoted[%d]' % n
+        pf.npath = fn.npath + '::promoted[%d]' % n
+        pf.body = fn.promoted[n]
+        pf.blocks = pf.body['blocks']
+        pf.promoted = []
+        depth = 9000
+        work = [(0, World({}, None))]
+        result = TOP
+        steps = 0
+        while work and steps < 200:
+            steps += 1
+            bb, w = work.pop()
+            for nbb, nw in self.step_block(pf, bb, w, depth):
+                if nbb is None:
+                    rv = nw.store.get((depth, 0), TOP)
+                    if rv[0] == 'ref' and rv[1][0] == depth:
+                        rv = ('ref', ('const', self.read(nw, rv[1])))
+                    result = rv
+                else:
+                    work.append((nbb, nw))
+        self._promoted[key] = result
+        return result
+
     def const_value(self, c):
+        if c.get('val') is None and not c.get('fn') and 'promoted[' in c.get('s', '') and self._fn is not None:
+            try:
+                n = int(c['s'].rsplit('promoted[', 1)[1].split(']')[0])
+                return self.eval_promoted(self._fn, n)
+            except (ValueError, IndexError):
+                return TOP
         if c.get('fn'):
             ty = c['ty']
             if ty.get('k') == 'closure':
@@ -856,6 +899,7 @@ class Interp:
         """Execute one basic block abstractly; returns list of (next bb | None for return, world)."""
         b = fn.blocks[bb]
         worlds = [w]
+        self._fn = fn
         for s in b['stmts']:
             k = s['k']
             if k == 'assign':
@@ -880,6 +924,7 @@ class Interp:
             elif k == 'switch':
                 out.extend(self.do_switch(cw, depth, t))
             elif k == 'call':
+                self._fn = fn
                 for w2, rv in self.do_call(fn, bb, cw, depth, t):
                     if t['t'] is None:
                         continue  # diverging call
